@@ -529,7 +529,7 @@ def correspond(pid, cases, stage="parse", check_tokens=False):
         ot = {}
         if viol:
             res[i] = {"status": "disagree", "what": "O_directive/O_role", "at": "render_directive / render_myst_role",
-                      "impl": "the current node did not receive the run_directive / role result exactly once at its end: %r" % (viol[:2],),
+                      "impl": "the current node did not receive the run_directive / role result exactly once at its end, or the result is not a forest of fresh nodes (an object occurs twice / wrong parent): %r" % (viol[:2],),
                       "model": "self.current_node += nodes", "oracle_tests": ot}
             continue
         if check_tokens and seen is not None:
